@@ -10,7 +10,7 @@ import uuid
 from .. import sym
 from ..runner import Ctx, Unit
 from ..val import Err
-from .c11 import _gke, _kid, _kid_val, ref_eck, ref_ffk, ref_kdfp
+from .c11 import _gke, _kid, _kid_val, ref_eck, ref_ffk, ref_ffp, ref_kdfp
 
 AREA = "gkdi"
 
@@ -25,7 +25,10 @@ MANIFEST = {
             "independent SP800-108/56A/DH/ECDH reference written on hmac/hashlib and calibrated by AES-unwrapping the 16 Windows-produced blobs of tests/data.",
     "note": "Nonce-mode agreement is stated for an encrypting side that holds the L2 seed key of its position or a conforming envelope without L2 key (allowed at L2 = 31; "
             "new_kek then derives it -- the repair of defect D13, commit 38c07ef in /repo, which the model follows; instance C03_nonce_absent_l2_example). "
-            "ECDH agreement is conditional on CryptoLaws.ec_commutes (shown to hold for the symbolic instance). DH hypotheses ask that KDF/RNG outputs are byte strings (wfb).",
+            "ECDH agreement is conditional on CryptoLaws.ec_commutes (shown to hold for the symbolic instance). DH hypotheses ask that KDF/RNG outputs are byte strings (wfb), "
+            "that both envelopes carry the group's DH parameters (dh_group_params) and that both public values are valid group elements (dh_pub_valid): "
+            "an ephemeral or group public value in {0, 1, p-1} is refused by the receiver since the repair of D16; the agreement theorems assume valid group elements "
+            "(probability of a degenerate draw in the RFC 5114 group: 2^-256).",
     "technique": "Coq proof (modular exponentiation, fixed-width codecs, composition with the C02 chain theorem) + differential correspondence under symbolic crypto + calibrated reference test",
 }
 ASSUMPTIONS = [
@@ -96,17 +99,21 @@ def ceil8(n):
 
 
 def spec_kek_sym(hid, seed, sec_alg, priv_bits, pub_struct, rnd, mode):
-    """(kek, key_info) MS-GKDI prescribes, as symbolic terms; None when undefined (invalid ephemeral key...)"""
+    """(kek, key_info, receiver_refuses) MS-GKDI prescribes, as symbolic terms; None when the sender has no KEK (invalid
+    ephemeral key, a group key blob that does not use the group's parameters or carries a degenerate public value).
+    receiver_refuses: the sender's ephemeral public value is degenerate (0, 1, p - 1) or the receiver's envelope carries
+    other DH parameters: the receiver must raise ValueError (repair of D16) instead of deriving a KEK."""
     if mode == "nonce":
-        return skdf(hid, seed, LABEL, rnd, 32), rnd
+        return skdf(hid, seed, LABEL, rnd, 32), rnd, False
     y = int.from_bytes(skdf(hid, seed, LABEL, z16(sec_alg), ceil8(priv_bits)), "big")
     x = int.from_bytes(rnd, "big")
     if mode == "dh":
-        kl, p, g = pub_struct
-        if p == 0:
+        kl, p, g, enc_params_ok, dec_params_ok = pub_struct
+        if p == 0 or not enc_params_ok or not 1 < pow(g, y, p) < p - 1:
             return None
         shared = pow(pow(g, y, p), x, p).to_bytes(kl, "big")
         key_info = ref_ffk([kl, p, g, pow(g, x, p)])
+        refuses = not dec_params_ok or not 1 < pow(g, x, p) < p - 1
         hs = 2
     else:
         name, kl = pub_struct
@@ -117,8 +124,9 @@ def spec_kek_sym(hid, seed, sec_alg, priv_bits, pub_struct, rnd, mode):
         bx = pow(sym.SYM_G, x, sym.SYM_Q)
         key_info = ref_eck([name, kl, bx, (7 * bx + sym.CURVE_ID[{"P256": "secp256r1", "P384": "secp384r1", "P521": "secp521r1"}[name]]) % sym.SYM_Q])
         hs = CURVE_HASH[name]
+        refuses = False
     secret = sconcat(hs, shared, OTHERINFO, HASHES[hs][1])
-    return skdf(hid, secret, LABEL, KEKCTX, 32), key_info
+    return skdf(hid, secret, LABEL, KEKCTX, 32), key_info, refuses
 
 
 # ------------------------------------------------------------------------------------------------
@@ -180,9 +188,12 @@ def impl_compute(arg):
 
     from ..impl_util import hash_of_id
 
-    hid, alg, priv, pub = arg
+    if len(arg) == 5:
+        hid, alg, sp, priv, pub = arg
+    else:
+        (hid, alg, priv, pub), sp = arg, b""
     with sym.patched():
-        return compute_kek(hash_of_id(hid), alg, b"", bytes(priv), bytes(pub))
+        return compute_kek(hash_of_id(hid), alg, bytes(sp), bytes(priv), bytes(pub))
 
 
 def impl_from_pub(arg):
@@ -190,9 +201,12 @@ def impl_from_pub(arg):
 
     from ..impl_util import hash_of_id
 
-    hid, seed, alg, pub, plen = arg
+    if len(arg) == 6:
+        hid, seed, alg, sp, pub, plen = arg
+    else:
+        (hid, seed, alg, pub, plen), sp = arg, b""
     with sym.patched():
-        return compute_kek_from_public_key(hash_of_id(hid), bytes(seed), alg, b"", bytes(pub), plen)
+        return compute_kek_from_public_key(hash_of_id(hid), bytes(seed), alg, bytes(sp), bytes(pub), plen)
 
 
 def impl_pubkey(arg):
@@ -261,12 +275,22 @@ def agree_cases(ctx: Ctx, n):
                 seed = ch.k2(l1, l2)
                 y = int.from_bytes(skdf(hid, seed, LABEL, z16("DH"), ceil8(priv_bits)), "big")
                 pub = ref_ffk([kl, p, g, pow(g, y, p)])
-                enc = env_val(hid, 1, l0, l1, l2, rk, "DH", b"", priv_bits, kl * 8, b"", pub)
+                # both envelopes carry the group's DH parameters (msKds-SecretAgreementParam); now and then one side carries
+                # other parameters (another generator / key_length / none): that side must refuse with ValueError
+                par = ref_ffp([kl, p, g])
+                enc_par, dec_par = par, par
+                if k % 11 == 3:
+                    enc_par = [ref_ffp([kl, p, (g + 1) % 256 ** kl]), ref_ffp([kl + 1, p, g]), b""][k % 3]
+                if k % 13 == 5:
+                    dec_par = [ref_ffp([kl, p, (g + 1) % 256 ** kl]), ref_ffp([kl + 1, p, g]), b""][k % 3]
+                enc = env_val(hid, 1, l0, l1, l2, rk, "DH", enc_par, priv_bits, kl * 8, b"", pub)
                 d1, d2 = (l1, l2) if k % 2 else (31, 31)
                 kk1, kk2 = ch.envelope_keys(d1, d2, drop_l2_at_31=True) if (d1, d2) == (31, 31) else ch.envelope_keys(d1, d2)
-                dec_env = env_val(hid, 0, l0, d1, d2, rk, "DH", b"", priv_bits, kl * 8, kk1, kk2)
+                dec_env = env_val(hid, 0, l0, d1, d2, rk, "DH", dec_par, priv_bits, kl * 8, kk1, kk2)
                 rnd = rb(ctx, ceil8(priv_bits))
-                out.append(([enc, dec_env, rnd], ("dh", hid, seed, "DH", priv_bits, (kl, p, g))))
+                if k % 17 == 7:
+                    rnd = b"\0" * ceil8(priv_bits)  # ephemeral exponent 0: public value 1, the receiver refuses
+                out.append(([enc, dec_env, rnd], ("dh", hid, seed, "DH", priv_bits, (kl, p, g, enc_par == par, dec_par == par))))
     # ---- ECDH (symbolic commutative group standing in for the curve)
     for name, alg in (("P256", "ECDH_P256"), ("P384", "ECDH_P384"), ("P521", "ECDH_P521"), ("P256", "ECDH_P384")):
         for kl in (8, 9, 12, 32, 48, 66):
@@ -310,6 +334,10 @@ def pred_agree_factory(meta_by_key):
             return "encrypt-side KEK is not the derivation MS-GKDI / SP800-56A prescribes"
         if bytes(kid[6]) != want[1]:
             return "key identifier does not carry the prescribed nonce / ephemeral public key"
+        if want[2]:
+            if not (isinstance(back, Err) and back.name == "ValueError"):
+                return f"the receiver must refuse a degenerate public value / foreign DH parameters with ValueError ({repr(back)[:60]})"
+            return None
         if back != kek:
             return f"decrypt-side KEK differs from the encrypt-side KEK ({repr(back)[:60]})"
         return None
@@ -317,15 +345,28 @@ def pred_agree_factory(meta_by_key):
     return pred
 
 
+def _params_of(pub: bytes) -> bytes:
+    """the FFCDHParameters a DH key blob announces (what a consistent group key envelope would carry), b"" if it does not parse"""
+    if pub[:4] != b"DHPB" or len(pub) < 8:
+        return b""
+    kl = int.from_bytes(pub[4:8], "little")
+    if kl > 64 or len(pub) < 8 + 3 * kl:
+        return b""
+    return ref_ffp([kl, int.from_bytes(pub[8:8 + kl], "big"), int.from_bytes(pub[8 + kl:8 + 2 * kl], "big")])
+
+
 def hostile_compute(ctx: Ctx, n):
     """compute_kek / compute_public_key / compute_kek_from_public_key on hostile public keys"""
     out_c, out_p, out_f = [], [], []
     good_dh = ref_ffk([2, 65521, 17, 1234])
+    other_par = ref_ffp([2, 65521, 19])
     good_ec = ref_eck(["P256", 8, pow(3, 5, sym.SYM_Q), (7 * pow(3, 5, sym.SYM_Q) + 1) % sym.SYM_Q])
     pubs = [good_dh, good_ec,
             ref_ffk([2, 0, 17, 5]),          # modulus 0: pow() ValueError
             ref_ffk([2, 1, 0, 0]),           # modulus 1
-            ref_ffk([1, 251, 6, 250]),
+            ref_ffk([1, 251, 6, 250]),         # p - 1: degenerate
+            ref_ffk([1, 251, 6, 249]), ref_ffk([1, 251, 6, 2]), ref_ffk([1, 251, 6, 1]), ref_ffk([1, 251, 6, 0]), ref_ffk([1, 251, 6, 251]),
+            ref_ffk([2, 65521, 17, 65520]), ref_ffk([2, 65521, 17, 65519]),
             b"DHPB" + (1).to_bytes(4, "little") + b"\xff\xf1" + b"\x00\x11" + b"\x04\xd2",  # key_length 1 but 2-byte ints: misparse
             b"DHPB" + (0).to_bytes(4, "little"),   # key_length 0: p = 0
             b"DHPX" + good_dh[4:], good_dh[:9], b"", good_dh + b"\0\0",
@@ -340,14 +381,17 @@ def hostile_compute(ctx: Ctx, n):
         for alg in algs:
             k += 1
             priv = privs[k % len(privs)]
+            # secret_parameters: what the key blob announces (consistent group), sometimes other parameters or none
+            sp = [_params_of(pub), _params_of(pub), _params_of(pub), other_par, b""][k % 5]
+            out_c.append([1 + k % 4, alg, sp, priv, pub])
             out_c.append([1 + k % 4, alg, priv, pub])
             out_p.append([alg, priv, pub])
-            out_f.append([1 + k % 4, rb(ctx, 6), alg, pub, [0, 1, 2, 32, 64][k % 5]])
+            out_f.append([1 + k % 4, rb(ctx, 6), alg, sp, pub, [0, 1, 2, 32, 64][k % 5]])
     for _ in range(n):
         kl = ctx.rng.randrange(0, 5)
         pub = ref_ffk([kl] + [ctx.rng.randrange(256 ** kl) for _ in range(3)]) if kl else ref_ffk([0, 0, 0, 0])
         priv = rb(ctx, ctx.rng.randrange(0, 6))
-        out_c.append([1 + k % 4, "DH", priv, pub])
+        out_c.append([1 + k % 4, "DH", _params_of(pub) if ctx.rng.randrange(8) else other_par, priv, pub])
         out_p.append(["DH", priv, pub])
         x = ctx.rng.randrange(1, sym.SYM_Q)
         name = ctx.rng.choice(["P256", "P384", "P521"])
@@ -646,19 +690,22 @@ def oracles(ctx: Ctx) -> None:
         priv_bits = {"nonce": 512, "dh": 512, "P256": 256, "P384": 384}[mode]
         alg = {"nonce": "DH", "dh": "DH", "P256": "ECDH_P256", "P384": "ECDH_P384"}[mode]
         y = int.from_bytes(ref_kdf108(hname, seed, LABEL, z16(alg), ceil8(priv_bits)), "big")
+        sec_par = b""
         if mode == "nonce":
             pub_struct = b""
         elif mode == "dh":
             groups = REAL_DH_GROUPS if ctx.thorough else REAL_DH_GROUPS[:2] + REAL_DH_GROUPS[4:6]
             gkl, gp, gg = groups[(stats["cases"] // 2) % len(groups)]
             pub_struct = ref_ffk([gkl, gp, gg, pow(gg, y, gp)])
+            sec_par = ref_ffp([gkl, gp, gg])      # both envelopes carry the group's DH parameters
         else:
             cvp = CURVES[mode]
             A = ec_mul(mode, y % cvp[5], (cvp[3], cvp[4]))
             pub_struct = ref_eck([mode, cvp[6], A[0], A[1]])
-        seed_env = mk_env(l0, l1, l2, rk, b"\x11" * 64, seed, flags=0, kdf_par=ref_kdfp(HASHES[hid][2]), sec_alg=alg, priv=priv_bits, pub=2048)
+        seed_env = mk_env(l0, l1, l2, rk, b"\x11" * 64, seed, flags=0, kdf_par=ref_kdfp(HASHES[hid][2]), sec_alg=alg, sec_par=sec_par, priv=priv_bits,
+                          pub=2048)
         enc_env = seed_env if mode == "nonce" else mk_env(l0, l1, l2, rk, b"", pub_struct, flags=1, kdf_par=ref_kdfp(HASHES[hid][2]),
-                                                          sec_alg=alg, priv=priv_bits, pub=2048)
+                                                          sec_alg=alg, sec_par=sec_par, priv=priv_bits, pub=2048)
         # encrypt side (real crypto); search a few ephemeral keys for a leading zero byte in the public value / shared secret
         tries = 1 if mode == "nonce" else ctx.n(60, 600)
         best = None
